@@ -95,20 +95,42 @@ def floor_(a):
 
 # ----------------------------------------------------------------------------- module loading
 class Module:
+    """one plinio/cost module: its source and what every module-level name is BOUND to when the module has been
+    executed — the last top-level statement that binds the name wins, exactly as in Python:
+      ('func', FunctionDef) | ('class', ClassDef) | ('import', (sibling module, name)) | ('lib', 'torch'|'math'|..)
+      | ('other', line)   anything the translator cannot see through (assignment, absolute import, conditional def...)"""
     def __init__(self, repo, name):
         self.name = name
         self.path = os.path.join(repo, 'plinio', 'cost', name + '.py')
         self.src = open(self.path).read()
         self.tree = ast.parse(self.src)
-        self.funcs, self.classes, self.imports = {}, {}, {}
+        self.bind = {}
+        self.star = None
         for n in self.tree.body:
             if isinstance(n, ast.FunctionDef):
-                self.funcs[n.name] = n
+                self.bind[n.name] = ('func', n)
             elif isinstance(n, ast.ClassDef):
-                self.classes[n.name] = n
-            elif isinstance(n, ast.ImportFrom) and n.level == 1 and n.module:
+                self.bind[n.name] = ('class', n)
+            elif isinstance(n, ast.ImportFrom):
                 for a in n.names:
-                    self.imports[a.asname or a.name] = (n.module, a.name)
+                    if a.name == '*':
+                        self.star = n.lineno
+                    elif n.level == 1 and n.module:
+                        self.bind[a.asname or a.name] = ('import', (n.module, a.name))
+                    else:
+                        self.bind[a.asname or a.name] = ('other', n.lineno)
+            elif isinstance(n, ast.Import):
+                for a in n.names:
+                    self.bind[a.asname or a.name.split('.')[0]] = ('lib', a.name) if (a.asname or '.' not in a.name) else ('other', n.lineno)
+            else:
+                for sub in ast.walk(n):       # assignments, conditional / nested definitions, loops, with, try, del ...
+                    if isinstance(sub, (ast.FunctionDef, ast.AsyncFunctionDef, ast.ClassDef)):
+                        self.bind[sub.name] = ('other', sub.lineno)
+                    elif isinstance(sub, ast.Name) and isinstance(sub.ctx, (ast.Store, ast.Del)):
+                        self.bind[sub.id] = ('other', sub.lineno)
+                    elif isinstance(sub, (ast.Import, ast.ImportFrom)):
+                        for a in sub.names:
+                            self.bind[a.asname or a.name.split('.')[0]] = ('other', sub.lineno)
 
 
 class Translator:
@@ -121,16 +143,33 @@ class Translator:
             self.mods[name] = Module(self.repo, name)
         return self.mods[name]
 
+    def resolve(self, m, name, want, depth=0):
+        """the definition `name` is bound to in module m, following `from .x import name` chains: -> (module, node).
+        Fail closed when the binding is anything else than a visible def/class of a plinio/cost module."""
+        if m.star is not None:
+            raise Untranslatable('%s has a star import (line %d): bindings cannot be resolved' % (m.name, m.star))
+        if name not in m.bind:
+            raise Untranslatable('%s is not bound in %s' % (name, m.name))
+        kind, val = m.bind[name]
+        if kind == want:
+            return m, val
+        if kind == 'import' and depth < 4:
+            try:
+                m2 = self.mod(val[0])
+            except (OSError, SyntaxError) as ex:
+                raise Untranslatable('%s imports %s from %s which cannot be read (%s)' % (m.name, name, val[0], type(ex).__name__))
+            return self.resolve(m2, val[1], want, depth + 1)
+        raise Untranslatable('%s in %s is bound to a %s, not to a visible %s' % (name, m.name, kind if kind != 'other' else 'value the translator cannot see through (line %s)' % val, want))
+
+    def is_lib(self, m, name):
+        return m.star is None and m.bind.get(name) == ('lib', name)
+
     # -- one function
     def translate_function(self, modname, fname):
         """-> (guards, body term).  guards: list of (term, [Fraction])"""
-        m = self.mod(modname)
-        if fname not in m.funcs:
-            if fname in m.imports:
-                return self.translate_function(*m.imports[fname])
-            raise Untranslatable('function %s not found in %s' % (fname, modname))
+        m, fdef = self.resolve(self.mod(modname), fname, 'func')
         guards = []
-        body = self.call_function(m, m.funcs[fname], [Spec()], guards, depth=0)
+        body = self.call_function(m, fdef, [Spec()], guards, depth=0)
         if not is_term(body):
             raise Untranslatable('%s.%s does not return a number' % (modname, fname))
         return guards, body
@@ -202,7 +241,7 @@ class Translator:
     def is_type_test(t):
         if isinstance(t, ast.UnaryOp) and isinstance(t.op, ast.Not):
             t = t.operand
-        return isinstance(t, ast.Call) and isinstance(t.func, ast.Name) and t.func.id == 'isinstance' and len(t.args) == 2 and isinstance(t.args[0], ast.Name)
+        return isinstance(t, ast.Call) and isinstance(t.func, ast.Name) and t.func.id in ('isinstance', 'hasattr') and len(t.args) == 2 and isinstance(t.args[0], ast.Name)
 
     def guard(self, m, t, env, guards, depth):
         if isinstance(t, ast.BoolOp) and isinstance(t.op, ast.And):
@@ -263,6 +302,13 @@ class Translator:
                     raise Untranslatable('dict key is not a numeric literal')
                 d[kk[1]] = ev(v)
             return d
+        if isinstance(e, ast.IfExp) and self.is_type_test(e.test):
+            # `x.item() if isinstance(x, torch.Tensor) else x`: a choice on the Python TYPE between two expressions of
+            # the same symbolic value
+            a, b = ev(e.body), ev(e.orelse)
+            if is_term(a) and a == b:
+                return a
+            raise Untranslatable('type-test conditional expression whose branches differ (line %d of %s)' % (e.lineno, m.name))
         if isinstance(e, ast.IfExp):
             # 1 if spec['_parameters']['bias'] is not None else 0   (or the mirrored form)
             t = e.test
@@ -348,7 +394,9 @@ class Translator:
                 if isinstance(v, list) and v and all(is_term(x) and x[0] == 'const' for x in v):
                     return const(sum(x[1] for x in v) / len(v))
                 raise Untranslatable('.mean() of something that is not a list of literals')
-            if isinstance(f, ast.Attribute) and isinstance(f.value, ast.Name) and f.value.id in ('torch', 'math'):
+            if isinstance(f, ast.Attribute) and isinstance(f.value, ast.Name) and f.value.id in ('torch', 'math') and f.value.id not in env:
+                if not self.is_lib(m, f.value.id):
+                    raise Untranslatable('%s is not the %s library in %s (line %d)' % (f.value.id, f.value.id, m.name, e.lineno))
                 args = [ev(x) for x in e.args]
                 if f.attr == 'floor' and len(args) == 1:
                     return floor_(args[0])
@@ -359,29 +407,26 @@ class Translator:
                 raise Untranslatable('%s.%s is outside the whitelist (line %d of %s)' % (f.value.id, f.attr, e.lineno, m.name))
             # Class.apply(...)
             if isinstance(f, ast.Attribute) and f.attr == 'apply' and isinstance(f.value, ast.Name):
-                cm, cname = m, f.value.id
-                if cname not in cm.classes and cname in cm.imports:
-                    cm, cname = self.mod(cm.imports[cname][0]), cm.imports[cname][1]
-                if cname not in cm.classes:
-                    raise Untranslatable('class %s not found' % cname)
-                fwd = [n for n in cm.classes[cname].body if isinstance(n, ast.FunctionDef) and n.name == 'forward']
+                cname = f.value.id
+                if cname in env:
+                    raise Untranslatable('.apply on the local value %s' % cname)
+                cm, cdef = self.resolve(m, cname, 'class')
+                fwd = [n for n in cdef.body if isinstance(n, ast.FunctionDef) and n.name == 'forward']
                 if len(fwd) != 1:
                     raise Untranslatable('%s has no forward' % cname)
                 return self.call_function(cm, fwd[0], [ev(x) for x in e.args], guards, depth + 1, skip_first=True)
             # float(x): value-preserving coercion
-            if isinstance(f, ast.Name) and f.id == 'float' and len(e.args) == 1:
+            if isinstance(f, ast.Name) and f.id == 'float' and len(e.args) == 1 and 'float' not in env and 'float' not in m.bind:
                 v = ev(e.args[0])
                 if is_term(v):
                     return v
                 raise Untranslatable('float() of a non-number')
             # module-level function
             if isinstance(f, ast.Name):
-                fm, fname = m, f.id
-                if fname not in fm.funcs and fname in fm.imports:
-                    fm, fname = self.mod(fm.imports[fname][0]), fm.imports[fname][1]
-                if fname in fm.funcs:
-                    return self.call_function(fm, fm.funcs[fname], [ev(x) for x in e.args], guards, depth + 1)
-                raise Untranslatable('call of unknown function %s (line %d of %s)' % (f.id, e.lineno, m.name))
+                if f.id in env:
+                    raise Untranslatable('call of the local value %s (line %d of %s)' % (f.id, e.lineno, m.name))
+                fm, fdef = self.resolve(m, f.id, 'func')
+                return self.call_function(fm, fdef, [ev(x) for x in e.args], guards, depth + 1)
             raise Untranslatable('call form outside the whitelist (line %d of %s)' % (e.lineno, m.name))
         raise Untranslatable('expression %s (line %d of %s)' % (type(e).__name__, getattr(e, 'lineno', 0), m.name))
 
